@@ -230,11 +230,13 @@ InitWith(p) ==
 Init == InitWith("off")          \* ChainStorage driven directly
 InitPoller == InitWith("idle")   \* ChainStorage driven by the poller
 
-PollerIdle == pc \in {"off", "idle"}
+(* bounds on the length of a behaviour; a negative bound switches the counter off, so that the
+   exhaustive configurations cover update sequences of ANY length over the bounded chain *)
+Bump(x, max) == IF max < 0 THEN x' = x ELSE x < max /\ x' = x + 1
 
 (* ---- ChainStorage.ApplyUpdate, called directly (storage level) ---- *)
 ApplyCall(u, num, baseCnt, oldest, cls, tags) ==
-  /\ pc = "off" /\ nupd < MaxUpd
+  /\ pc = "off"
   /\ LET r == ComputeUpdate(chain, u, num, baseCnt, oldest, cls) IN
      /\ r.tag \in tags
      /\ Len(r.chain) <= MaxSlots
@@ -242,7 +244,7 @@ ApplyCall(u, num, baseCnt, oldest, cls, tags) ==
      /\ chain' = r.chain
      /\ act' = [name |-> "ApplyUpdate", u |-> u, num |-> num, base |-> baseCnt, oldest |-> oldest, cls |-> cls]
      /\ res' = [st |-> r.st, tag |-> r.tag, aff |-> r.aff]
-  /\ nupd' = nupd + 1
+  /\ Bump(nupd, MaxUpd)
   /\ UNCHANGED <<canon, views, pOld, pc, pk, nenv>>
 
 Nums == 1..(MaxHead + MaxSlots + 1)
@@ -262,14 +264,14 @@ RejectedNoChange(num, o, cls) == ApplyCall(NoChangeUpd, num, 0, o, cls, Rejected
 
 (* ---- ChainStorage.AdvanceTo, called directly ---- *)
 AdvanceTo(o) ==
-  /\ pc = "off" /\ nupd < MaxUpd
+  /\ pc = "off"
   /\ (~Rogue) => o = CHead + 1
   /\ LET r == AdvanceRes(chain, o) IN
      /\ chain' = r.chain
      /\ act' = [name |-> "AdvanceTo", o |-> o]
      /\ res' = [st |-> "ok", tag |-> r.tag, ch |-> r.ch]
   /\ pOld' = o
-  /\ nupd' = nupd + 1
+  /\ Bump(nupd, MaxUpd)
   /\ UNCHANGED <<canon, views, pc, pk, nenv>>
 
 (* ---- readers: ChainStorage.SnapshotForBlock(n) ---- *)
@@ -282,17 +284,17 @@ Snapshot(n) ==
 
 (* ---- canonical head ---- *)
 HeadAdvance(v) ==
-  /\ CHead < MaxHead /\ nenv < MaxEnv
+  /\ CHead < MaxHead
   /\ canon' = Append(canon, v)
   /\ act' = [name |-> "HeadAdvance", v |-> v] /\ res' = [st |-> "ok"]
-  /\ nenv' = nenv + 1
+  /\ Bump(nenv, MaxEnv)
   /\ UNCHANGED <<chain, views, pOld, pc, pk, nupd>>
 
 HeadRevert ==
-  /\ CHead > 0 /\ nenv < MaxEnv
+  /\ CHead > 0
   /\ canon' = SubSeq(canon, 1, CHead - 1)
   /\ act' = [name |-> "HeadRevert"] /\ res' = [st |-> "ok"]
-  /\ nenv' = nenv + 1
+  /\ Bump(nenv, MaxEnv)
   /\ UNCHANGED <<chain, views, pOld, pc, pk, nupd>>
 
 --------------------------------------------------------------------------
@@ -313,7 +315,7 @@ FitsBounds(c) == Len(c) <= MaxSlots /\ \A i \in 1..Len(c) : Len(c[i].txs) <= Max
 
 (* Height() returns; AdvanceTo(h+1); atTip?; SnapshotForBlock(h+1) -> hints; call Latest *)
 TickStart(attip) ==
-  /\ pc = "idle" /\ nupd < MaxUpd
+  /\ pc = "idle"
   /\ LET o == CHead + 1
          r == AdvanceRes(chain, o)
          sn == SnapshotOf(r.chain, o)
@@ -329,7 +331,7 @@ TickStart(attip) ==
            ELSE pc' = "idle" /\ pk' = IdlePk
         /\ act' = [name |-> "TickStart", attip |-> attip]
         /\ res' = [st |-> "ok", tag |-> r.tag, ch |-> r.ch]
-  /\ nupd' = nupd + 1
+  /\ Bump(nupd, MaxUpd)
   /\ UNCHANGED <<canon, views, nenv>>
 
 (* the final apply of the tick: apply(update, updateBlockNum, txCount, oldestPreConf, nil) *)
@@ -383,15 +385,32 @@ ByNumResp(u, fail) ==
 
 --------------------------------------------------------------------------
 Updates == {NoChangeUpd} \cup {FullUpd(b) : b \in FullBlocks} \cup {DeltaUpd(d) : d \in Deltas}
+AllTags == RejectedTags \cup {"bootstrap", "extend", "replace-tip", "replace-truncate", "preserved", "delta",
+                               "nochange-classes", "nochange-known", "nochange-empty"}
 
-StorageNext ==
-  \/ \E b \in FullBlocks, num \in Nums, o \in OldestChoices, cls \in ClassSets :
+(* block numbers worth targeting: one below the chain up to two above its tip (any other number is
+   rejected for the same reason as one of these, leaving the same state) *)
+NumChoices == IF Rogue THEN Nums
+              ELSE IF Len(chain) = 0 THEN {pOld, pOld + 1}
+              ELSE {n \in Nums : n >= Oldest(chain) - 1 /\ n <= Tip(chain) + 2}
+BaseChoices == IF Rogue \/ Len(chain) = 0 THEN 0..MaxTx
+               ELSE {Len(chain[Len(chain)].txs), (Len(chain[Len(chain)].txs) + 1) % (MaxTx + 1)}
+
+(* one disjunct per case of the code (used with -coverage to show that every case is reached) *)
+StorageNextNamed ==
+  \/ \E b \in FullBlocks, num \in NumChoices, o \in OldestChoices, cls \in ClassSets :
         \/ Bootstrap(b, num, o, cls) \/ Extend(b, num, o, cls) \/ ReplaceSlot(b, num, o, cls)
         \/ PreserveSlot(b, num, o, cls) \/ RejectedFull(b, num, o, cls)
-  \/ \E d \in Deltas, num \in Nums, bc \in 0..MaxTx, o \in OldestChoices, cls \in ClassSets :
+  \/ \E d \in Deltas, num \in NumChoices, bc \in BaseChoices, o \in OldestChoices, cls \in ClassSets :
         Delta(d, num, bc, o, cls) \/ RejectedDelta(d, num, bc, o, cls)
-  \/ \E num \in Nums, o \in OldestChoices, cls \in ClassSets :
+  \/ \E num \in NumChoices, o \in OldestChoices, cls \in ClassSets :
         NoChange(num, o, cls) \/ RejectedNoChange(num, o, cls)
+  \/ \E o \in 1..(MaxHead + 2) : AdvanceTo(o)
+
+(* the same transitions with one evaluation of the case analysis per call *)
+StorageNext ==
+  \/ \E u \in Updates, num \in NumChoices, o \in OldestChoices, cls \in ClassSets :
+        \E bc \in (IF u.kind = "delta" THEN BaseChoices ELSE {0}) : ApplyCall(u, num, bc, o, cls, AllTags)
   \/ \E o \in 1..(MaxHead + 2) : AdvanceTo(o)
 
 EnvNext ==
@@ -401,10 +420,11 @@ EnvNext ==
 
 PollerNext ==
   \/ \E attip \in BOOLEAN : TickStart(attip)
-  \/ \E u \in Updates, L \in Nums, fail \in BOOLEAN : LatestResp(u, L, fail)
+  \/ \E u \in Updates, L \in NumChoices, fail \in BOOLEAN : LatestResp(u, L, fail)
   \/ \E u \in Updates, fail \in BOOLEAN : ByNumResp(u, fail)
 
 Next == StorageNext \/ EnvNext
+NextNamed == StorageNextNamed \/ EnvNext
 NextPoller == PollerNext \/ EnvNext
 
 Spec == Init /\ [][Next]_vars
